@@ -31,6 +31,8 @@ Corners:
       'idroot'  : instance documents whose ROOT objects carry ids (iD flag through the .ecore file; string and integer
                   ids; declared by the root class or inherited): inner objects refer to their root, roots of a
                   multi-root document to each other and to themselves; cross-loaded three ways against what was saved.
+                  Root and inner classes also carry attributes/references NAMED like local names of XMI/XSI syntax
+                  (version, type, id, nil, schemaLocation, idref, uuid, xmi, xsi; string/int, single/many, set/unset).
       The structural signature also compares, on both sides, the DERIVED value `many` every typed element reports
       (DERIVED_VIEWS, keys marked '~'), next to the stored bounds.
   correspondence (ties coq/Gen/EcoreMM.v, i.e. the translator's reading of pyecore/ecore.py, to the running library):
@@ -2671,6 +2673,20 @@ def gen_idroot_desc(rng, stats=None):
         part['features'].append(_ref('watchers', 'Unit', upper=-1))
     if rng.random() < 0.4:
         part['features'].append(_ref('next', ppath))
+    # features named like the local names of XMI/XSI syntax (xmi:version, xsi:type, xmi:id, xsi:nil, xsi:schemaLocation,
+    # xmi:idref, xmi:uuid): on the root class and on inner classes, string and integer typed, attribute or reference.
+    # ('href' is known finding F-C08-href-feature-name: not generated.)
+    for c in (unit, part):
+        for nm in rng.sample(XMI_SYNTAX_NAMES, rng.choice([0, 1, 2, 3])):
+            if any(f['name'] == nm for f in c['features']):
+                continue
+            if rng.random() < 0.2:
+                c['features'].append(_ref(nm, 'Unit', upper=rng.choice([1, 1, -1])))
+            else:
+                c['features'].append(_attr(nm, rng.choice(['ecore:EString', 'ecore:EString', 'ecore:EInt']),
+                                           upper=rng.choice([1, 1, 1, -1])))
+            if stats is not None:
+                stats[f'features named {nm}'] = stats.get(f'features named {nm}', 0) + 1
     root['classifiers'].append(unit)
     (sub if sub is not None else root)['classifiers'].append(part)
     if stats is not None:
@@ -2679,6 +2695,8 @@ def gen_idroot_desc(rng, stats=None):
     return root
 
 
+XMI_SYNTAX_NAMES = ['version', 'type', 'id', 'nil', 'schemaLocation', 'idref', 'uuid', 'xmi', 'xsi']
+SYNTAX_TEXTS = ['1.7', 'release two', 'org:Unit', 'true', 'http://a b', 'x', '2.0.1', '#//Unit']
 ID_TEXTS = ['HQ', 'U2', 'north', 'x-1', 'B_7', 'Zeta', 'a.b', 'r0', 'K', 'unit9', 'É1', 'p:q']
 ID_STATS = {}
 
@@ -2753,6 +2771,30 @@ def gen_id_instances(mm, rng):
                 u.peers.append(to_root(x))
         if parts and Unit.findEStructuralFeature('chief') is not None and rng.random() < 0.5:
             u.chief = rng.choice(parts)
+    for o in units + parts:
+        for f in o.eClass.eAllStructuralFeatures():
+            if f.name not in XMI_SYNTAX_NAMES or rng.random() < 0.35:
+                continue                                     # left unset
+            k = 'on a root' if o in roots else 'on an inner object'
+            st[f'syntax-named features set {k}'] = st.get(f'syntax-named features set {k}', 0) + 1
+            if f.is_reference:
+                if f.many:
+                    o.eGet(f).extend(rng.sample(units, rng.randint(1, min(2, len(units)))))
+                else:
+                    o.eSet(f, rng.choice(units))
+            else:
+                def val():
+                    return rng.randint(-5, 99) if f.eType.name == 'EInt' else rng.choice(SYNTAX_TEXTS)
+                if f.many:
+                    vals = []
+                    for _ in range(rng.randint(1, 3)):
+                        v = val()
+                        if v not in vals and not (isinstance(v, str) and ' ' in v):
+                            vals.append(v)          # many-valued strings with blanks: C08's business, not generated
+                    if vals:
+                        o.eGet(f).extend(vals)
+                else:
+                    o.eSet(f, val())
     return roots
 
 
